@@ -158,7 +158,7 @@ def sibling(ctx, fx, ps, vreach):
     a, b = ps
     only = (sets[a.name] ^ sets[b.name])
     ctx.stats["parser_fields"] = {k: sorted(v) for k, v in sets.items()}
-    ctx.floor("C10.F2", "fields written by each parser", min(len(sets[a.name]), len(sets[b.name])), 5)
+    ctx.floor("C10.F2", "fields written by each parser", min(len(sets[a.name]), len(sets[b.name])), 3)
     common_fields = sets[a.name] & sets[b.name]
     for f in sorted(common_fields):
         ctx.ok("C10.F2", None, "both-write:%s" % f, "both parsers assign SDJWTCommon.%s" % f)
@@ -172,16 +172,36 @@ def sibling(ctx, fx, ps, vreach):
             continue
         # elsewhere it may only be copied; its copies must be read under a format-exclusive block (checked for the holder below)
         ctx.ok("C10.F2", None, "one-sided:%s" % f, "filled by only one parser; read only by %s (not reachable from the verifier)" % sorted(set(r["fn"].name for r in rd)))
+    # the parsers are judged in their canonical views: a private `set_token(jwt, header, payload)` helper shared by both is spliced into each
+    # and its writes are judged there with that parser's arguments
+    pviews = dict((p.name, fx.view(p.name)) for p in ps)
+
+    def W(p, field):
+        return [w for w in (common.struct_field_writes(fx, COMMON, field, fns=[pviews[p.name]]) or [])]
+    ps = [pviews[p.name] for p in ps]
     # sign_alg: same callee over the same string that is stored as unverified_sd_jwt
     callee = {}
-    for p in ps:
+    has_sign_alg = "sign_alg" in (fx.field_names(COMMON) or [])
+    if not has_sign_alg:
+        ctx.ok("C10.F2", None, "sign_alg", "SDJWTCommon keeps no parsed algorithm: the algorithm is read from the token where it is verified (judged by C02.R2), the same code for both formats")
+    shapes = {}
+    for p in (ps if has_sign_alg else []):
         pv = vals(p)
-        sa = [w for w in (common.struct_field_writes(fx, COMMON, "sign_alg") or []) if w["fn"] is p]
-        uj = [w for w in (common.struct_field_writes(fx, COMMON, "unverified_sd_jwt") or []) if w["fn"] is p]
+        sa = W(p, "sign_alg")
+        uj = W(p, "unverified_sd_jwt")
         if not sa or not uj:
             ctx.finding("C10.F2", p, "sign_alg", "parser does not assign sign_alg / unverified_sd_jwt")
             continue
         v = peel(sa[0]["value"])
+        tok0 = peel(uj[0]["value"])
+        if tok0.kind == "agg" and tok0.kids:
+            tok0 = peel(tok0.kids[0])
+        if v.kind != "call" or not v.kids or not (peel(v.kids[0]) is tok0 or same(v.kids[0], tok0)):
+            # general form: the same computation (expression shape) in both parsers over the stored token or its header part
+            sh = derivation_shape(p, sa[0]["value"], tok0)
+            if sh is not None:
+                shapes[p.name] = (sh, sa[0]["line"])
+                continue
         if v.kind != "call" or not v.kids:
             ctx.finding("C10.F2", p, "sign_alg", "sign_alg is not computed by a call on the token", line=sa[0]["line"])
             continue
@@ -194,6 +214,16 @@ def sibling(ctx, fx, ps, vreach):
             ctx.ok("C10.F2", p, "sign_alg", "sign_alg = %s(<the string stored as unverified_sd_jwt>)" % callee[p.name].split("::")[-1], line=sa[0]["line"])
         else:
             ctx.finding("C10.F2", p, "sign_alg", "sign_alg is derived from a different string than the one stored as unverified_sd_jwt", line=sa[0]["line"])
+    if len(shapes) == 2:
+        (s1, l1), (s2, l2) = list(shapes.values())
+        if s1 == s2:
+            for p in ps:
+                ctx.ok("C10.F2", p, "sign_alg", "sign_alg is the same computation in both parsers over the stored token / its header part", line=shapes[p.name][1])
+            ctx.ok("C10.F2", None, "sign_alg-same-callee", "both parsers derive sign_alg by the same expression")
+        else:
+            ctx.finding("C10.F2", None, "sign_alg-same-callee", "the parsers derive sign_alg by different computations: %s vs %s" % (s1[:160], s2[:160]))
+    elif len(shapes) == 1:
+        ctx.finding("C10.F2", None, "sign_alg-same-callee", "one parser derives sign_alg by a call on the stored token, the other by %s" % list(shapes.values())[0][0][:200])
     if len(set(callee.values())) == 1 and len(callee) == 2:
         ctx.ok("C10.F2", None, "sign_alg-same-callee", "both parsers use %s" % list(callee.values())[0])
     elif len(callee) == 2:
@@ -202,7 +232,7 @@ def sibling(ctx, fx, ps, vreach):
     LIST_OK = {"collect", "map", "into_iter", "iter", "split", "deref", "next", "next_back", "to_owned", "to_string", "clone", "as_str", "from", "into", "branch", "map_err", "from_str", "ok_or"}
     for p in ps:
         for fld, what in (("input_disclosures", "disclosure list"), ("unverified_input_key_binding_jwt", "key-binding JWT")):
-            ws = [w for w in (common.struct_field_writes(fx, COMMON, fld) or []) if w["fn"] is p and w["how"] in ("assign", "calldest")]
+            ws = [w for w in W(p, fld) if w["how"] in ("assign", "calldest")]
             for w in ws:
                 v = w["value"]
                 pv = peel(v)
@@ -236,7 +266,7 @@ def sibling(ctx, fx, ps, vreach):
     # JSON parser: jwt rebuilt from protected, payload, signature in that order
     for p in ps:
         pv = vals(p)
-        uj = [w for w in (common.struct_field_writes(fx, COMMON, "unverified_sd_jwt") or []) if w["fn"] is p]
+        uj = W(p, "unverified_sd_jwt")
         if not uj:
             continue
         order = []
@@ -250,6 +280,86 @@ def sibling(ctx, fx, ps, vreach):
                 ctx.ok("C10.F2", p, "json-order", "the JWT is rebuilt from protected, payload, signature in this order", line=uj[0]["line"])
             else:
                 ctx.finding("C10.F2", p, "json-order", "the JSON parser rebuilds the JWT from %s (expected protected, payload, signature)" % order, line=uj[0]["line"])
+
+
+def derivation_shape(fn, v, tok):
+    """the expression that computes v, with the stored token written ⟨tok⟩ and its header part (first `.`-segment of the token / the
+    `protected` member of the parsed JSON object) written ⟨hdr⟩; None when v depends on anything else that is not a constant"""
+    import seqmodel
+    bad = []
+
+    def header_root(x):
+        if x.kind == "field" and x.d.get("adt") == "SDJWTJson" and x.d.get("name") == "protected":
+            return True
+        e = seqmodel.elem_of(fn, x)
+        if e is not None and e[1] == ("lo", 0) and seqmodel.split_over(e[0])[1] == ".":
+            base = peel(seqmodel.split_over(e[0])[0])
+            return base is tok or same(base, tok)
+        return False
+
+    def rec(x, d):
+        x = peel(x)
+        if d > 30:
+            return "…"
+        if x is tok or same(x, tok):
+            return "⟨tok⟩"
+        if header_root(x):
+            return "⟨hdr⟩"
+        k = x.kind
+        if k == "const":
+            return "c:%r" % (const_value(x),)
+        if k == "call":
+            t = x.d["term"]
+            return "%s(%s)" % ((t.get("resolved") or t.get("callee") or t.get("name") or "?").split("<")[0], ",".join(rec(y, d + 1) for y in x.kids))
+        if k == "agg":
+            a = x.d["agg"]
+            if a.get("kind") == "closure":
+                return "closure:%s" % (a.get("def") or "").split("::")[-1]
+            return "%s{%s}" % (a.get("variant") or a.get("kind"), ",".join(rec(y, d + 1) for y in x.kids))
+        if k in ("field", "variant", "index") and x.kids:
+            return "%s.%s" % (rec(x.kids[0], d + 1), x.d.get("name") if k == "field" else (x.d.get("variant") if k == "variant" else "[]"))
+        if k == "phi":
+            return "phi(%s)" % "|".join(sorted(set(rec(y, d + 1) for y in x.kids if y.kind != "cycle")))
+        if k == "mut" and x.kids:
+            return rec(x.kids[0], d + 1)
+        if k in ("binop", "unop"):
+            return "%s(%s)" % (x.d.get("op"), ",".join(rec(y, d + 1) for y in x.kids))
+        if k == "cycle":
+            return "…"
+        bad.append(k)
+        return "?" + k
+    sh = rec(v, 0)
+    if bad or ("⟨tok⟩" not in sh and "⟨hdr⟩" not in sh):
+        return None
+    return sh
+
+
+def _whole_copy_call(P, w):
+    """the `&mut envelope.disclosures` borrow taken at w feeds `Clone::clone_from(&mut it, &self.hs_disclosures)` and nothing else:
+    the member is replaced by a whole copy of the selected list"""
+    b = P.blocks[w["bb"]]
+    st = b["stmts"][w["idx"]]
+    loc = st["place"]["local"] if not st["place"]["proj"] else None
+    if loc is None:
+        return False
+    pv = vals(P)
+    # follow the borrow to the call that receives it (same block or a straight-line successor)
+    cur, g = w["bb"], 0
+    while g < 4:
+        g += 1
+        t = P.term(cur)
+        if t["k"] == "call":
+            n = pv.call_node(cur)
+            a0 = t["args"][0] if t.get("args") else None
+            apl = (a0.get("move") or a0.get("copy")) if isinstance(a0, dict) else None
+            if apl and apl["local"] == loc and not apl["proj"]:
+                return t.get("name") == "clone_from" and len(n.kids) == 2 and must(n.kids[1], lambda x: x.kind == "field" and x.d.get("name") == "hs_disclosures")
+            return False
+        if t["k"] == "goto":
+            cur = t["target"]
+            continue
+        return False
+    return False
 
 
 def nullable_asymmetry(ctx, fx, ps, fields):
@@ -379,7 +489,9 @@ def f3(ctx, fx):
         if w["how"] == "init" and (w["fn"].is_macro_generated() or w["value"] is None):
             continue
         n += 1
-        if w["how"] in ("mutborrow", "partial"):
+        if w["how"] == "mutborrow" and _whole_copy_call(P, w):
+            ctx.ok("C10.F3", P, "json-disclosures", "the JSON envelope's `disclosures` is overwritten by clone_from(hs_disclosures): a whole copy of the selected list", line=w["line"])
+        elif w["how"] in ("mutborrow", "partial"):
             ctx.finding("C10.F3", P, "json-disclosures", "the JSON envelope's disclosure list is edited in place (retain/sort/push …) instead of being replaced by the selected list: its order or content can "
                         "differ from the Compact form and from the sequence the KB-JWT's sd_hash covers", line=w["line"])
         elif w["value"] is not None and must(w["value"], lambda x: x.kind == "field" and x.d.get("name") == "hs_disclosures") and not may(w["value"], lambda x: x.kind == "call" and x.d["term"].get("name") in
